@@ -61,9 +61,15 @@ def go_test_overlay(repo, pkgdir, filename, source, run, timeout=120, race=False
 
 
 def try_replay(prop, name, ob, repo, work):
+    # every adapter whose pattern matches is tried until one produces a failing input
+    last = None
     for pat, f in ADAPTERS:
         if pat.search(name):
-            return f(prop, name, ob, repo, work)
+            last = f(prop, name, ob, repo, work)
+            if last[0]:
+                return last
+    if last is not None:
+        return last
     return False, {"note": "no replay adapter registered for this obligation"}
 
 
